@@ -264,6 +264,18 @@ def uses(fn, rename):
     return {"search": "MSearch", "match": "MMatch"}[meth]
 
 
+def need_ordered(fn, frags, where):
+    """like need(), and the fragments occur in this order"""
+    norm = lambda t: "".join(t.replace("(", " ").replace(")", " ").replace('"', "'").split())
+    src = norm(ast.unparse(fn))
+    pos = 0
+    for f in frags:
+        i = src.find(norm(f), pos)
+        if i < 0:
+            U("%s no longer contains (in this order): %s" % (where, f))
+        pos = i + len(norm(f))
+
+
 def need(fn, frags, where):
     norm = lambda t: "".join(t.replace("(", " ").replace(")", " ").replace('"', "'").split())
     src = norm(ast.unparse(fn))                       # layout, quoting and redundant parentheses ignored
@@ -324,6 +336,11 @@ class Sym:
                         henv[x.id] = item
                 else:
                     self.bail(st, "assignment target in helper")
+            elif isinstance(st, ast.For) and i < len(body) - 1:
+                lc = self.loop_as_comprehension(st, henv, eff, facts)
+                if lc is None:
+                    self.bail(st, "loop in helper %s is not a list-building loop" % d.name)
+                henv[lc[0]] = lc[1]
             elif isinstance(st, ast.Return) and st.value is not None and i == len(body) - 1:
                 result = self.ev(st.value, henv, eff, facts)
             else:
@@ -337,6 +354,23 @@ class Sym:
 
     def bail(self, node, why):
         U("%s: %s: %s" % (self.fname, why, ast.unparse(node) if isinstance(node, ast.AST) else node))
+
+    def loop_as_comprehension(self, st, env, eff, facts):
+        """`for v in ITER: acc.append(ELT)` where acc is bound to the empty list built just before and ELT does not mention
+        acc  ==  acc = [ELT for v in ITER]  (same elements, same order of evaluation, same exceptions; the loop variable
+        is not bound afterwards here, so a later use of it fails closed).  -> (acc name, value) or None"""
+        if not (isinstance(st, ast.For) and not st.orelse and isinstance(st.target, ast.Name) and len(st.body) == 1):
+            return None
+        b = st.body[0]
+        if not (isinstance(b, ast.Expr) and isinstance(b.value, ast.Call) and isinstance(b.value.func, ast.Attribute)
+                and b.value.func.attr == "append" and isinstance(b.value.func.value, ast.Name)
+                and len(b.value.args) == 1 and not b.value.keywords):
+            return None
+        acc = b.value.func.value.id
+        if env.get(acc) != ("liststr", ("emptylist",)) or any(isinstance(n, ast.Name) and n.id == acc for n in ast.walk(b.value.args[0])):
+            return None
+        comp = ast.ListComp(elt=b.value.args[0], generators=[ast.comprehension(target=st.target, iter=st.iter, ifs=[], is_async=0)])
+        return acc, self.ev(ast.fix_missing_locations(ast.copy_location(comp, st)), env, eff, facts)
 
     def fresh(self, eff, text, env):
         env["__n"] = env.get("__n", 0) + 1                    # path-local numbering (env is copied at every branch)
@@ -510,6 +544,13 @@ class Sym:
             else:
                 self.bail(st, "assignment target")
             return wrap(self.block(rest, env2, facts))
+        if isinstance(st, ast.For):
+            lc = self.loop_as_comprehension(st, env, eff, facts)
+            if lc is None:
+                self.bail(st, "loop")
+            env2 = dict(env)
+            env2[lc[0]] = lc[1]
+            return wrap(self.block(rest, env2, facts))
         if isinstance(st, ast.If):
             c, pol = self.cond(st.test, env, eff, facts)
             yes, no = (st.body, st.orelse) if pol else (st.orelse, st.body)
@@ -540,6 +581,384 @@ class Sym:
             self.bail(fdef.name, "decorated / star-args / defaults")
         env = {a.arg: ("param", ("param", i)) for i, a in enumerate(x for x in fdef.args.args if x.arg != "self")}
         return self.block(list(fdef.body), env, frozenset())
+
+
+
+# ---------------------------------------------------------------- connection.get_endpoint: the dispatch, read statement by statement
+class Dispatch:
+    """Symbolic execution of connection.get_endpoint into a decision tree, emitted as ONE Coq term (get_endpoint_shape).
+
+    Outer function: nested defs (kept by name) and `return defer.maybeDeferred(<nested def>)`: whatever the nested
+    function raises or returns becomes the outcome of the Deferred, so the tree of the nested body IS the outcome.
+    Terms:  ('loc',)                         the location parameter
+            ('hint',)                        convert_legacy_hint(location)            [do-node: may raise]
+            ('before', t, sep)               t.split(sep, 1)[0] / t.partition(sep)[0]  (text before the first sep)
+            ('sepfound', t, sep)             t.partition(sep)[1]   (true iff sep occurs)
+            ('lookup', t)                    connectionPlugins.get(t)
+            ('call', plugin, t)              defer.maybeDeferred(plugin.hint_to_endpoint, t, reactor, <status fn>)
+            ('opaque',)                      result of a status / logging effect
+    Conditions: ('hassep', t, sep) | ('found', lookup-term), with polarity; locals are substituted (pure terms only; the
+    one call that can raise, convert_legacy_hint, is a do-node at its place; status / log effects are checked against a
+    whitelist and dropped -- they are assumed not to raise, see ctx.assumptions).
+    Tree: ('do-conv', tree) | ('if', cond, yes, no) | ('raise', class) | ('return-call', plugin, hint)."""
+    STATUS_CALLS = ("connectionInfo._describe_connection_handler", "connectionInfo._set_connection_status",
+                    "log.msg", "log.err", "describe_handler")
+
+    def __init__(self, fdef, module=None):
+        self.f = fdef
+        self.nested = {}
+        self.did_conv = False
+        self.module = module
+
+    def module_fn(self, name):
+        """a plain function defined exactly once at module level and never rebound"""
+        if self.module is None:
+            return None
+        defs = [st for st in self.module.body if isinstance(st, (ast.FunctionDef, ast.ClassDef)) and st.name == name]
+        rebound = [n for n in ast.walk(self.module) if isinstance(n, ast.Name) and n.id == name and isinstance(n.ctx, (ast.Store, ast.Del))]
+        rebound += [n for n in ast.walk(self.module) if isinstance(n, (ast.Global, ast.Nonlocal)) and name in n.names]
+        if len(defs) == 1 and isinstance(defs[0], ast.FunctionDef) and not rebound and not defs[0].decorator_list:
+            return defs[0]
+        return None
+
+    def bail(self, node, why):
+        U("get_endpoint: %s: %s" % (why, ast.unparse(node) if isinstance(node, ast.AST) else node))
+
+    def run(self):
+        f = self.f
+        if f.decorator_list or [a.arg for a in f.args.args] != ["location", "connectionPlugins", "connectionInfo"]:
+            self.bail(f.name, "signature")
+        body = [st for st in f.body if not (isinstance(st, ast.Expr) and isinstance(st.value, ast.Constant))]
+        for st in body[:-1]:
+            if not isinstance(st, ast.FunctionDef) or st.decorator_list:
+                self.bail(st, "the outer body is not nested defs followed by one return")
+            self.nested[st.name] = st
+        last = body[-1]
+        if not (isinstance(last, ast.Return) and isinstance(last.value, ast.Call) and ast.unparse(last.value.func) == "defer.maybeDeferred"
+                and len(last.value.args) == 1 and not last.value.keywords and isinstance(last.value.args[0], ast.Name)
+                and last.value.args[0].id in self.nested):
+            self.bail(last, "not `return defer.maybeDeferred(<nested function>)`")
+        inner = self.nested[last.value.args[0].id]
+        if inner.args.args or inner.args.vararg or inner.args.kwarg:
+            self.bail(inner.name, "the dispatched function takes arguments")
+        env = {"location": ("loc",)}
+        return self.block(list(inner.body), env)
+
+    # ---- status effects
+    def status_fn(self, name):
+        """a nested def whose body consists of whitelisted status / logging calls only"""
+        d = self.nested.get(name)
+        if d is None:
+            return False
+        for st in d.body:
+            if isinstance(st, ast.Expr) and isinstance(st.value, ast.Constant):
+                continue
+            if not (isinstance(st, ast.Expr) and isinstance(st.value, ast.Call) and ast.unparse(st.value.func) in self.STATUS_CALLS):
+                return False
+        return True
+
+    def passthrough_errback(self, name):
+        """a nested def f(x): <logging calls>; return x   -- the failure goes on unchanged"""
+        d = self.nested.get(name) or self.module_fn(name)
+        if d is None or len(d.args.args) != 1:
+            return False
+        body = [st for st in d.body if not (isinstance(st, ast.Expr) and isinstance(st.value, ast.Constant))]
+        for st in body[:-1]:
+            if not (isinstance(st, ast.Expr) and isinstance(st.value, ast.Call) and ast.unparse(st.value.func) in self.STATUS_CALLS):
+                return False
+        return bool(body) and isinstance(body[-1], ast.Return) and isinstance(body[-1].value, ast.Name) \
+            and body[-1].value.id == d.args.args[0].arg
+
+    def sep_of(self, e):
+        if isinstance(e, ast.Constant) and isinstance(e.value, str) and len(e.value) == 1:
+            return e.value
+        self.bail(e, "separator is not a one-character literal")
+
+    # ---- expressions
+    def ev(self, e, env):
+        if isinstance(e, ast.Name):
+            if e.id in env:
+                return env[e.id]
+            if e.id in self.nested:
+                return ("fn", e.id)
+            if e.id == "reactor":
+                return ("reactor",)
+            self.bail(e, "unbound name")
+        if isinstance(e, ast.Constant) and e.value is None:
+            return ("none",)
+        if isinstance(e, ast.Subscript) and isinstance(e.slice, ast.Constant) and e.slice.value in (0, 1, 2):
+            v = self.ev(e.value, env)
+            if v[0] == "split1" and e.slice.value == 0:
+                return ("before", v[1], v[2])
+            if v[0] == "tuple":
+                return v[1][e.slice.value]
+            self.bail(e, "subscript")
+        if isinstance(e, ast.Call) and not e.keywords:
+            fu = ast.unparse(e.func)
+            if fu == "convert_legacy_hint" and len(e.args) == 1 and self.ev(e.args[0], env) == ("loc",):
+                if self.did_conv:
+                    self.bail(e, "convert_legacy_hint is called twice")
+                self.did_conv = True
+                return ("hint",)
+            if isinstance(e.func, ast.Attribute):
+                if fu == "connectionPlugins.get" and len(e.args) == 1:
+                    return ("lookup", self.ev(e.args[0], env))
+                if fu == "defer.maybeDeferred" and len(e.args) == 4 and isinstance(e.args[0], ast.Attribute) \
+                        and e.args[0].attr == "hint_to_endpoint":
+                    plugin = self.ev(e.args[0].value, env)
+                    hint = self.ev(e.args[1], env)
+                    st = self.ev(e.args[3], env)
+                    if plugin[0] != "lookup" or self.ev(e.args[2], env) != ("reactor",) or st[0] != "fn" or not self.status_fn(st[1]):
+                        self.bail(e, "handler call")
+                    return ("call", plugin, hint)
+                obj = self.ev(e.func.value, env) if not fu.startswith(("connectionInfo.", "log.")) else None
+                if obj is not None and obj[0] in ("hint", "loc") and e.func.attr == "partition" and len(e.args) == 1:
+                    sep = self.sep_of(e.args[0])
+                    return ("tuple", [("before", obj, sep), ("sepfound", obj, sep), ("opaque-str",)])
+                if obj is not None and obj[0] in ("hint", "loc") and e.func.attr == "split" and len(e.args) == 2 \
+                        and isinstance(e.args[1], ast.Constant) and e.args[1].value == 1:
+                    return ("split1", obj, self.sep_of(e.args[0]))
+                if obj is not None and obj[0] in ("hint", "loc") and e.func.attr == "find" and len(e.args) == 1:
+                    return ("find", obj, self.sep_of(e.args[0]))
+            if fu in self.STATUS_CALLS or (isinstance(e.func, ast.Name) and self.status_fn(e.func.id)):
+                for a in e.args:
+                    if not (isinstance(a, ast.Constant) or self.ev(a, env)):
+                        self.bail(a, "argument of a status call")
+                return ("opaque",)
+        if isinstance(e, ast.Tuple):
+            return ("tuple", [self.ev(x, env) for x in e.elts])
+        if isinstance(e, ast.Constant):
+            return ("const", e.value)
+        self.bail(e, "expression")
+
+    def cond(self, e, env):
+        if isinstance(e, ast.UnaryOp) and isinstance(e.op, ast.Not):
+            c, pol = self.cond(e.operand, env)
+            return c, not pol
+        if isinstance(e, ast.Compare) and len(e.ops) == 1:
+            op, l, r = e.ops[0], e.left, e.comparators[0]
+            if isinstance(op, (ast.In, ast.NotIn)):
+                t = self.ev(r, env)
+                if t[0] in ("hint", "loc"):
+                    return ("hassep", t, self.sep_of(l)), isinstance(op, ast.In)
+            lv = self.ev(l, env)
+            if lv[0] == "find" and isinstance(r, (ast.Constant, ast.UnaryOp)):
+                try:
+                    k = ast.literal_eval(r)
+                except Exception:
+                    k = None
+                table = {(ast.Lt, 0): False, (ast.Eq, -1): False, (ast.GtE, 0): True, (ast.NotEq, -1): True, (ast.Gt, -1): True}
+                if (type(op), k) in table:
+                    return ("hassep", lv[1], lv[2]), table[(type(op), k)]
+            self.bail(e, "comparison")
+        v = self.ev(e, env)
+        if v[0] == "lookup":
+            return ("found", v), True          # a registered handler object is true, .get() gives None otherwise
+        if v[0] == "sepfound":
+            return ("hassep", v[1], v[2]), True
+        self.bail(e, "truth value")
+
+    # ---- statements
+    def block(self, stmts, env):
+        if not stmts:
+            return ("return-none",)
+        st, rest = stmts[0], stmts[1:]
+        if isinstance(st, ast.Expr) and isinstance(st.value, ast.Constant):
+            return self.block(rest, env)
+        if isinstance(st, ast.FunctionDef) and not st.decorator_list:
+            self.nested[st.name] = st
+            return self.block(rest, env)
+        if isinstance(st, ast.Assign) and len(st.targets) == 1:
+            before = self.did_conv
+            v = self.ev(st.value, env)
+            env2 = dict(env)
+            tgt = st.targets[0]
+            if isinstance(tgt, ast.Name):
+                env2[tgt.id] = v
+            elif isinstance(tgt, ast.Tuple) and v[0] == "tuple" and len(v[1]) == len(tgt.elts) and all(isinstance(x, ast.Name) for x in tgt.elts):
+                for x, item in zip(tgt.elts, v[1]):
+                    env2[x.id] = item
+            else:
+                self.bail(st, "assignment")
+            t = self.block(rest, env2)
+            return ("do-conv", t) if (self.did_conv and not before) else t
+        if isinstance(st, ast.Expr) and isinstance(st.value, ast.Call):
+            c = st.value
+            if isinstance(c.func, ast.Attribute) and c.func.attr == "addErrback" and len(c.args) == 1 and not c.keywords \
+                    and isinstance(c.args[0], ast.Name) and c.args[0].id not in env and self.passthrough_errback(c.args[0].id) \
+                    and self.ev(c.func.value, env)[0] == "call":
+                return self.block(rest, env)            # the failure is logged and handed on unchanged
+            if self.ev(c, env) == ("opaque",):
+                return self.block(rest, env)
+            self.bail(st, "statement")
+        if isinstance(st, ast.If):
+            c, pol = self.cond(st.test, env)
+            yes, no = (st.body, st.orelse) if pol else (st.orelse, st.body)
+            return ("if", c, self.block(list(yes) + rest, dict(env)), self.block(list(no) + rest, dict(env)))
+        if isinstance(st, ast.Raise) and st.exc is not None:
+            exc = st.exc.func if isinstance(st.exc, ast.Call) else st.exc
+            return ("raise", ast.unparse(exc))
+        if isinstance(st, ast.Return) and st.value is not None:
+            v = self.ev(st.value, env)
+            if v[0] == "call":
+                return ("return-call", v[1], v[2])
+        self.bail(st, "statement")
+
+    # ---- tree -> Coq
+    def coq(self, t, bound=None):
+        k = t[0]
+        if k == "do-conv":
+            return "match conv loc with\n  | Exc e => Exc e\n  | Ok hint =>\n      %s\n  end" % self.coq(t[1], bound)
+        if k == "raise":
+            return 'Exc "%s"' % t[1].split(".")[-1]
+        if k == "if" and t[1][0] == "hassep":
+            return "(if zmem %d %s then %s else %s)" % (ord(t[1][2]), self.term(t[1][1]), self.coq(t[2], bound), self.coq(t[3], bound))
+        if k == "if" and t[1][0] == "found" and bound is None:
+            return "(match lookup %s with Some h => %s | None => %s end)" % (self.term(t[1][1][1]), self.coq(t[2], t[1][1]), self.coq(t[3], None))
+        if k == "return-call" and bound is not None and t[1] == bound:
+            return "call h %s" % self.term(t[2])
+        U("get_endpoint: the decision tree has a node the model's term language does not cover: %r" % (t[:2],))
+
+    def term(self, t):
+        if t == ("hint",):
+            return "hint"
+        if t == ("loc",):
+            return "loc"
+        if t[0] == "before":
+            return "(take_until %d %s)" % (ord(t[2]), self.term(t[1]))
+        U("get_endpoint: term %r" % (t,))
+
+    def seps(self, t, acc):
+        if isinstance(t, tuple):
+            if t and t[0] in ("hassep", "before") and isinstance(t[2], str):
+                acc.add(t[2])
+            for x in t:
+                self.seps(x, acc)
+        return acc
+
+
+def inline_return(fdef):
+    """the text of `return <expr>` of a function whose body is `name = <expr>` assignments (each name assigned once, used
+    exactly once afterwards, in the order of the assignments -- so evaluation order is unchanged) followed by that return"""
+    body = [st for st in fdef.body if not (isinstance(st, ast.Expr) and isinstance(st.value, ast.Constant))]
+    if not body or not isinstance(body[-1], ast.Return) or body[-1].value is None:
+        return None
+    names, vals = [], {}
+    for st in body[:-1]:
+        if not (isinstance(st, ast.Assign) and len(st.targets) == 1 and isinstance(st.targets[0], ast.Name)) or st.targets[0].id in vals:
+            return None
+        names.append(st.targets[0].id)
+        vals[st.targets[0].id] = st.value
+    ret = body[-1].value
+    used = [n.id for n in ast.walk(ret) if isinstance(n, ast.Name) and n.id in vals]
+    loads = sorted((n.lineno, n.col_offset, n.id) for n in ast.walk(ret) if isinstance(n, ast.Name) and n.id in vals)
+    if sorted(used) != sorted(names) or [x[2] for x in loads] != names:
+        return None
+    if any(isinstance(n, ast.Name) and n.id in vals for v in vals.values() for n in ast.walk(v)):
+        return None
+
+    class Sub(ast.NodeTransformer):
+        def visit_Name(self, n):
+            return vals[n.id] if n.id in vals else n
+    return "return " + ast.unparse(Sub().visit(ast.parse(ast.unparse(ret), mode="eval").body))
+
+
+def need_return(fdef, frag, where):
+    """need() for a one-expression method, also accepted when operands were first bound to single-use locals"""
+    norm = lambda t: "".join(t.replace("(", " ").replace(")", " ").replace('"', "'").split())
+    got = inline_return(fdef)
+    if got is None or norm(frag) not in norm(got):
+        need(fdef, [frag], where)
+
+
+def is_base32_shape(fn):
+    """is_base32(s): every character of s.lower() is in BASE32_ALPHABET -- as the explicit loop with early `return False`
+    or as all(<generator / list> over the same characters); s.lower() may first be bound to a local"""
+    if fn.decorator_list or [a.arg for a in fn.args.args] != ["s"]:
+        U("is_base32: signature")
+    body = [st for st in fn.body if not (isinstance(st, ast.Expr) and isinstance(st.value, ast.Constant)) and not isinstance(st, ast.Assert)]
+    norm = lambda n: "".join(ast.unparse(n).split())
+    lowered = {"s.lower()"}
+    if body and isinstance(body[0], ast.Assign) and len(body[0].targets) == 1 and isinstance(body[0].targets[0], ast.Name) \
+            and norm(body[0].value) == "s.lower()" and body[0].targets[0].id != "s":
+        lowered.add(body[0].targets[0].id)
+        body = body[1:]
+    if len(body) == 2 and isinstance(body[0], ast.For) and isinstance(body[0].target, ast.Name) and norm(body[0].iter) in lowered \
+            and not body[0].orelse and len(body[0].body) == 1 \
+            and norm(body[0].body[0]) == "if%snotinBASE32_ALPHABET:returnFalse" % body[0].target.id and norm(body[1]) == "returnTrue":
+        return
+    if len(body) == 1 and isinstance(body[0], ast.Return) and isinstance(body[0].value, ast.Call) and norm(body[0].value.func) == "all" \
+            and len(body[0].value.args) == 1 and isinstance(body[0].value.args[0], (ast.GeneratorExp, ast.ListComp)):
+        g = body[0].value.args[0]
+        if len(g.generators) == 1 and not g.generators[0].ifs and isinstance(g.generators[0].target, ast.Name) \
+                and norm(g.generators[0].iter) in lowered and norm(g.elt) == "%sinBASE32_ALPHABET" % g.generators[0].target.id:
+            return
+    U("is_base32 no longer tests every character of s.lower() against BASE32_ALPHABET in a recognised form")
+
+
+def sturdyref_init_shape(fn):
+    """SturdyRef.__init__(self, url=None): on the path where url is true the attributes end as
+    tubID, locationHints, name = decode_furl(url) (one call) and url = six.ensure_str(url); on the other path
+    locationHints = [] and url = url.  Read path by path: attribute / local assignments, tuple unpacking, `if url` /
+    `if not url` with early return."""
+    if fn.decorator_list or [a.arg for a in fn.args.args] != ["self", "url"]:
+        U("SturdyRef.__init__: signature")
+
+    def ev(e, env, attrs, calls):
+        t = "".join(ast.unparse(e).split())
+        if isinstance(e, ast.Name) and e.id in env:
+            return env[e.id]
+        if t == "url":
+            return ("url",)
+        if t == "[]":
+            return ("empty",)
+        if isinstance(e, ast.Attribute) and isinstance(e.value, ast.Name) and e.value.id == "self" and e.attr in attrs:
+            return attrs[e.attr]
+        if isinstance(e, ast.Call) and t.startswith("six.ensure_str(") and len(e.args) == 1 and not e.keywords:
+            return ("ensure_str", ev(e.args[0], env, attrs, calls))
+        if isinstance(e, ast.Call) and t.startswith("decode_furl(") and len(e.args) == 1 and not e.keywords \
+                and ev(e.args[0], env, attrs, calls) in (("url",), ("ensure_str", ("url",))):
+            calls.append("decode")
+            return ("tuple", [("decode", 0), ("decode", 1), ("decode", 2)])
+        if isinstance(e, ast.Tuple):
+            return ("tuple", [ev(x, env, attrs, calls) for x in e.elts])
+        U("SturdyRef.__init__: expression %s" % ast.unparse(e))
+
+    def assign(tgt, v, env, attrs):
+        if isinstance(tgt, ast.Name):
+            env[tgt.id] = v
+        elif isinstance(tgt, ast.Attribute) and isinstance(tgt.value, ast.Name) and tgt.value.id == "self":
+            attrs[tgt.attr] = v
+        elif isinstance(tgt, ast.Tuple) and v[0] == "tuple" and len(v[1]) == len(tgt.elts):
+            for x, item in zip(tgt.elts, v[1]):
+                assign(x, item, env, attrs)
+        else:
+            U("SturdyRef.__init__: assignment target %s" % ast.unparse(tgt))
+
+    def run(stmts, env, attrs, calls, truthy):
+        for i, st in enumerate(stmts):
+            if isinstance(st, ast.Expr) and isinstance(st.value, ast.Constant):
+                continue
+            if isinstance(st, ast.Assign) and len(st.targets) == 1:
+                assign(st.targets[0], ev(st.value, env, attrs, calls), env, attrs)
+            elif isinstance(st, ast.If) and "".join(ast.unparse(st.test).split()) in ("url", "noturl"):
+                pos = "".join(ast.unparse(st.test).split()) == "url"
+                branch = st.body if pos == truthy else st.orelse
+                return run(list(branch) + stmts[i + 1:], env, attrs, calls, truthy)
+            elif isinstance(st, ast.Return) and st.value is None:
+                return attrs
+            else:
+                U("SturdyRef.__init__: statement %s" % ast.unparse(st))
+        return attrs
+
+    calls = []
+    yes = run(list(fn.body), {}, {}, calls, True)
+    if calls != ["decode"] or yes != {"locationHints": ("decode", 1), "url": ("ensure_str", ("url",)), "tubID": ("decode", 0), "name": ("decode", 2)}:
+        U("SturdyRef.__init__ no longer sets tubID, locationHints, name from one decode_furl(url): %r" % (yes,))
+    calls = []
+    no = run(list(fn.body), {}, {}, calls, False)
+    if calls or no != {"locationHints": ("empty",), "url": ("url",)}:
+        U("SturdyRef.__init__ without a url no longer leaves tubID / name at their class defaults: %r" % (no,))
 
 
 def unify(ref, cur, binds, where):
@@ -622,7 +1041,7 @@ def generate():
     out = ["(* GENERATED by /verif/translate/g_furl.py from furl.py, base32.py, referenceable.py, "
            "connections/tcp.py, connections/tor.py, connections/i2p.py, connection.py -- do not edit *)\n"
            "From Coq Require Import ZArith List String Bool.\nImport ListNotations.\n"
-           "Require Import Verif.lib.Regex.\nLocal Open Scope Z_scope.\n"]
+           "Require Import Verif.lib.PyLite Verif.lib.Regex Verif.lib.FurlPrim.\nLocal Open Scope Z_scope.\n"]
     zeros = digit_blocks()
     out.append("(* runtime fact (unicodedata of the interpreter): \\d = str.isdecimal, %d blocks of ten *)" % len(zeros))
     out.append("Definition digit_zeros : list Z := [%s]." % "; ".join(str(z) for z in zeros))
@@ -677,7 +1096,7 @@ def generate():
     if not isinstance(alpha, str):
         U("BASE32_ALPHABET is not a str")
     isb = P.find_def(bm, "is_base32")
-    need(isb, ["for c in s.lower():\n        if c not in BASE32_ALPHABET:\n            return False\n    return True"], "is_base32")
+    is_base32_shape(isb)
     out.append("Definition BASE32_ALPHABET : list Z := %s." % codes(alpha))
     lt = lower_table(alpha)
     out.append("(* runtime fact: code points whose str.lower() differs from themselves and lies inside the alphabet *)")
@@ -704,9 +1123,9 @@ def generate():
         out.append("Definition %s : list idfield := [%s]." % (cname, "; ".join(fields)))
         need(P.find_def(rm, cls + ".__eq__"), ["type(self) is type(them) and self.__class__ == them.__class__ and "
                                                "(self._distinguishers() == them._distinguishers())"], cls + ".__eq__")
-        need(P.find_def(rm, cls + ".__hash__"), ["return hash(self._distinguishers())"], cls + ".__hash__")
-        need(P.find_def(rm, cls + ".__ne__"), ["return not self == them"], cls + ".__ne__")
-        need(P.find_def(rm, cls + ".__lt__"), ["return self._distinguishers() < them._distinguishers()"], cls + ".__lt__")
+        need_return(P.find_def(rm, cls + ".__hash__"), "return hash(self._distinguishers())", cls + ".__hash__")
+        need_return(P.find_def(rm, cls + ".__ne__"), "return not self == them", cls + ".__ne__")
+        need_return(P.find_def(rm, cls + ".__lt__"), "return self._distinguishers() < them._distinguishers()", cls + ".__lt__")
     # the copy path (a SturdyRef that ARRIVES): only the four attributes of the model's record are taken from the state
     scs = P.find_def(rm, "SturdyRef.setCopyableState")
     loops = [n for n in scs.body if isinstance(n, ast.For)]
@@ -714,18 +1133,19 @@ def generate():
             or scs.decorator_list:
         U("SturdyRef.setCopyableState is no longer a single loop over the accepted attribute names")
     try:
-        accepted = P.const_expr(loops[0].iter)
+        accepted = P.const_expr(loops[0].iter, P.module_consts(rm))
     except P.Untranslatable:
-        U("SturdyRef.setCopyableState: the accepted attribute names are not a literal tuple")
-    if " ".join(ast.unparse(loops[0]).split()) != " ".join(
-            ("for k in %s:\n    if k in state:\n        setattr(self, k, state[k])" % ast.unparse(loops[0].iter)).split()):
+        U("SturdyRef.setCopyableState: the accepted attribute names are not a constant tuple")
+    it = ast.unparse(loops[0].iter)
+    forms = ["for k in %s:\n    if k in state:\n        setattr(self, k, state[k])" % it,
+             "for k in %s:\n    if k not in state:\n        continue\n    setattr(self, k, state[k])" % it]
+    if " ".join(ast.unparse(loops[0]).split()) not in [" ".join(f.split()) for f in forms]:
         U("SturdyRef.setCopyableState no longer copies exactly the accepted attributes")
     attr_field = {"url": "FUrl", "tubID": "FTubID", "locationHints": "FHints", "name": "FName"}
     if sorted(accepted) != sorted(attr_field):
         U("SturdyRef.setCopyableState accepts %r; the model's record has url, tubID, locationHints, name" % (accepted,))
     out.append("Definition sturdyref_copied_fields : list idfield := [%s]." % "; ".join(attr_field[a] for a in accepted))
-    need(P.find_def(rm, "SturdyRef.__init__"), ["self.tubID, self.locationHints, self.name = decode_furl(url)"],
-         "SturdyRef.__init__")
+    sturdyref_init_shape(P.find_def(rm, "SturdyRef.__init__"))
 
     # ---- connections/tcp.py
     tm = P.load("connections/tcp.py")
@@ -791,14 +1211,20 @@ def generate():
     # ---- connection.py: how a handler is chosen
     cm = P.load("connection.py")
     ge = P.find_def(cm, "get_endpoint")
-    need(ge, ["hint = convert_legacy_hint(location)",
-              "if ':' not in hint:\n            raise InvalidHintError(",
-              "hint_type = hint.split(':', 1)[0]",
-              "plugin = connectionPlugins.get(hint_type)",
-              "if not plugin:\n            connectionInfo._describe_connection_handler(location, None)\n            raise InvalidHintError(",
-              "d = defer.maybeDeferred(plugin.hint_to_endpoint, hint, reactor, _update_status)",
-              "return defer.maybeDeferred(_try)"], "get_endpoint")
-    out.append("Definition HINT_TYPE_SEP : Z := %d." % ord(":"))
+    disp = Dispatch(ge, cm)
+    gtree = disp.run()
+    seps = disp.seps(gtree, set())
+    if len(seps) != 1:
+        U("get_endpoint: expected exactly one separator character, found %r" % (sorted(seps),))
+    gterm = disp.coq(gtree)
+    if not disp.did_conv:
+        U("get_endpoint no longer passes the location through convert_legacy_hint")
+    out.append("(* connection.get_endpoint: the body handed to defer.maybeDeferred, read statement by statement (translate/g_furl.py Dispatch);\n"
+               "   conv = connections.tcp.convert_legacy_hint, lookup = connectionPlugins.get, call h x = the outcome of\n"
+               "   defer.maybeDeferred(h.hint_to_endpoint, x, reactor, status) after the pass-through errback *)")
+    out.append("Definition get_endpoint_shape {H E : Type} (conv : list Z -> res (list Z)) (lookup : list Z -> option H)\n"
+               "    (call : H -> list Z -> res E) (loc : list Z) : res E :=\n  %s." % gterm)
+    out.append("Definition HINT_TYPE_SEP : Z := %d." % ord(sorted(seps)[0]))
 
     # ---- pb.py Tub.getBrokerForTubRef / connectionFailed: the connector table (model: lib/Connector.v)
     pm = P.load("pb.py")
@@ -829,6 +1255,27 @@ def generate():
     if not isinstance(cconsts.get("CONNECTION_TIMEOUT"), int) or cconsts["CONNECTION_TIMEOUT"] <= 0:
         U("TubConnector.CONNECTION_TIMEOUT is not a positive integer literal")
     out.append("Definition CONNECTION_TIMEOUT : Z := %d." % cconsts["CONNECTION_TIMEOUT"])
+    # the hint loop and its failure handling (model: lib/ConnectAll.v; also compared with real TubConnectors on every run)
+    need_ordered(P.find_def(cm, "TubConnector.connectToAll"),
+                 ["while self.remainingLocations:", "location = self.remainingLocations.pop()",
+                  "if location in self.attemptedLocations:\n continue", "self.attemptedLocations.append(location)",
+                  "d = get_endpoint(location, self.connectionPlugins, self._connectionInfo)",
+                  "self.validHints.append(location)", "return ep.connect(TubConnectorFactory(self, host, location, lp))",
+                  "d.addCallback(_good_hint)", "self.pendingConnections.add(d)", "self.pendingConnections.remove(d)\n return res",
+                  "d.addBoth(_remove)", "d.addCallback(self._connectionSuccess, location, lp)",
+                  "d.addErrback(self._connectionFailed, location, lp)",
+                  "if self.tub._test_options.get('debug_stall_second_connection'):", "self.checkForFailure()"], "TubConnector.connectToAll")
+    need_ordered(P.find_def(cm, "TubConnector._connectionFailed"),
+                 ["if reason.check(error.ConnectionRefusedError):", "elif reason.check(error.ConnectingCancelledError, defer.CancelledError):",
+                  "elif reason.check(InvalidHintError):", "if not self.failureReason:\n self.failureReason = reason",
+                  "self.checkForFailure()"], "TubConnector._connectionFailed")
+    need_ordered(P.find_def(cm, "TubConnector.checkForFailure"),
+                 ["if not self.active:\n return",
+                  "if self.remainingLocations or self.pendingConnections or self.pendingNegotiations:\n return",
+                  "if not self.validHints:\n self.failureReason = Failure(NoLocationHintsError())", "self.failed()"],
+                 "TubConnector.checkForFailure")
+    need_ordered(P.find_def(cm, "TubConnector.failed"),
+                 ["self.active = False", "self.tub.connectionFailed(self.target, self.failureReason)"], "TubConnector.failed")
     need(P.find_def(cm, "TubConnector.connect"), ["self.timer = reactor.callLater(timeout, self.connectionTimedOut)",
                                                    "self.active = True", "self.connectToAll()"], "TubConnector.connect")
     return {"FurlGen.v": "\n".join(out) + "\n"}
